@@ -318,6 +318,12 @@ pub fn run_c13(ctx: &Ctx) -> i32 {
     vio.extend(v);
     println!("  [EmbeddedFS every operation x every path] evaluations={}", n);
 
+    // the async port: lock-step exploration with the unrestricted alphabet and reader scripts
+    let (n, v) = super::asyncprops::panic_sweep(ctx);
+    extra_runs += n;
+    vio.extend(v);
+    println!("  [async port: unrestricted lock-step exploration + reader scripts, panics only] evaluations={}", n);
+
     // join strings
     let (n, v) = super::pathprops::panic_sweep(if thorough { 7 } else { 5 });
     extra_runs += n;
@@ -345,5 +351,5 @@ pub fn run_c13(ctx: &Ctx) -> i32 {
         "catch_unwind around every call and every observer: BFS with the unrestricted alphabet incl. removal of the root and the states after it, type-inconsistent overlay layerings; reader/writer scripts at every offset; handles used while their file / parent is removed or replaced; every call on / next to / below hostile on-disk entries (non-UTF-8 names, dangling / looping symlinks); every operation on every path of the embedded fixtures; all join strings up to the bound",
         json!({"documented_panic_checked": "OverlayFS::new(&[])"}),
     );
-    finish_counts(ctx, &info, cov, &["copy_dir / move_dir into the source's own subtree excluded (documented non-termination)", "the async port is swept by the C15 engine (every async call runs under catch_unwind there)"], &vio, &counts)
+    finish_counts(ctx, &info, cov, &["copy_dir / move_dir into the source's own subtree excluded (documented non-termination)", "async port: sync/async lock-step exploration with the unrestricted alphabet and async reader scripts, every call under catch_unwind"], &vio, &counts)
 }
